@@ -268,6 +268,8 @@ Lemma reply_auth_roundtrip : forall c q oob k o s n p t,
   (forall k m, zlen (mac k m) = 16) ->                      (* a CMAC tag has 16 bytes *)
   (forall pt pp, reverse (h_path_type (rx_hdr q), h_path (rx_hdr q)) = Some (pt, pp) -> pt < 4) ->
                                                             (* Path.Reverse yields a registered path type *)
+  ip_type (h_src_type (rx_hdr q)) = true -> ip_type (h_dst_type (rx_hdr q)) = true ->
+                                                            (* the request names IP hosts, as the client's requests do *)
   server_auth c q = AuthOk k o -> rx_l4 q = Udp s (s_local_port c) n p ->
   server_step c q oob = Send ToLastHop t ->
   let h := rx_hdr q in
@@ -278,7 +280,7 @@ Lemma reply_auth_roundtrip : forall c q oob k o s n p t,
     client_auth cc (deliver t nok) = AuthOk k o' /\
     client_check cc (deliver t nok) 0 = Acc true.
 Proof.
-  intros c q oob k o s n p t Hlen Hrev Ha Hl H h cc nok.
+  intros c q oob k o s n p t Hlen Hrev Hts Htd Ha Hl H h cc nok.
   destruct (auth_reply_form c q oob k o s n p t Ha Hl H) as [pt [pp [Hr [Hs [Hd Ht]]]]].
   specialize (Hrev pt pp Hr).
   set (rh := reply_hdr c (rx_hdr q) pt pp) in *.
@@ -317,8 +319,8 @@ Proof.
   change (last_layer [LT_SCION; LT_E2E; LT_UDP] =? LT_SCMP) with false.
   unfold rl, reply_l4. cbn [negb].
   replace (8 + zlen (ntp_handle p) + 1020 <? 8 + zlen (ntp_handle p)) with false by (symmetry; apply Z.ltb_ge; lia).
-  unfold rh, reply_hdr, cc, h. cbn [set_next swap_hdr h_src_ia h_dst_ia h_src_raw h_dst_raw c_remote_ia c_remote_host c_local_ia c_local_host].
-  rewrite !Z.eqb_refl, (same_ip_refl _ Hs), (same_ip_refl _ Hd). reflexivity.
+  unfold rh, reply_hdr, cc, h. cbn [set_next swap_hdr h_src_ia h_dst_ia h_src_type h_dst_type h_src_raw h_dst_raw c_remote_ia c_remote_host c_local_ia c_local_host].
+  rewrite !Z.eqb_refl, Hts, Htd, (same_ip_refl _ Hs), (same_ip_refl _ Hd). reflexivity.
 Qed.
 
 (* ---- 6. ideal MAC: a datagram that differs from the authenticated one in any
@@ -486,6 +488,37 @@ Proof.
   pose proof (cli_request_clause mac c k h sp dp pl auth Hlen Hk) as H1. cbv zeta in H1.
   pose proof (cli_response_clause mac c k rs auth Hk Hwf) as H2.
   rewrite H1. cbn [andb]. exact H2.
+Qed.
+
+(* ---- an accepted response comes from the queried host ---- *)
+Lemma client_check_acc_addr : forall mac c q n a,
+  client_check mac c q n = Acc a ->
+  from_queried (c_local_ia c) (c_local_host c) (c_remote_ia c) (c_remote_host c) q = true.
+Proof.
+  intros mac c q n a H. unfold ScionGlue.client_check in H.
+  destruct (negb (rx_ok q)); [discriminate|].
+  destruct (negb (valid_type (rx_layers q))); [discriminate|].
+  destruct (last_layer (rx_layers q) =? LT_SCMP); [discriminate|].
+  destruct (rx_l4 q) as [s d len p| |]; try discriminate.
+  destruct (rx_buflen q <? len); [discriminate|].
+  match type of H with (if negb ?b then _ else _) = _ => destruct b eqn:Hb; [|discriminate] end.
+  unfold from_queried. unfold ip_type in Hb. exact Hb.
+Qed.
+
+Lemma cli_from_queried_on_model : forall mac c rs macs,
+  length macs = length rs ->
+  C13_cli_from_queried_ok (c_local_ia c) (c_local_host c) (c_remote_ia c) (c_remote_host c)
+    (combine (map fst rs) macs) (accepted_of (client_run mac c false 0 rs)) = true.
+Proof.
+  intros mac c rs macs Hlen.
+  destruct (client_run mac c false 0 rs) as [j a| |] eqn:Hr; try reflexivity. cbn [accepted_of C13_cli_from_queried_ok].
+  destruct (client_run_accept mac c rs false 0%nat j a Hr) as [q [n [Hn [Hc _]]]].
+  replace (j - 0)%nat with j in Hn by lia.
+  assert (Hm : exists m, nth_error (combine (map fst rs) macs) j = Some (q, m)).
+  { clear Hr Hc. revert j macs Hlen Hn. induction rs as [|[q0 n0] rs IH]; intros [|j] [|m macs] Hlen Hn; simpl in *; try discriminate.
+    - inversion Hn; subst. eexists; reflexivity.
+    - apply IH; [lia|exact Hn]. }
+  destruct Hm as [m Hm]. rewrite Hm. exact (client_check_acc_addr mac c q n a Hc).
 Qed.
 
 (* ---- the server oracle holds for the model on all inputs ---- *)
